@@ -39,7 +39,7 @@ try:
         cid, _, tier = c.partition(":")
         tier = tier or "quick"
         t0 = time.time()
-        rc, out = sh("./vcheck %s %s" % (cid, tier), "/verif", timeout=4 * 3600, env={"VERIF_REPO": wt, "VERIF_EVIDENCE_DIR": "/tmp/seedrun_evidence"})
+        rc, out = sh("./vcheck %s %s" % (cid, tier), "/verif", timeout=4 * 3600, env={"VERIF_REPO": wt, "VERIF_EVIDENCE_DIR": "/tmp/seedrun_evidence_" + name})
         vio = [l for l in out.splitlines() if l.startswith("VIOLATION")]
         first = ""
         lines = out.splitlines()
@@ -52,6 +52,7 @@ try:
     res["demo_exit_without_change"] = rc
 finally:
     sh("git worktree remove --force %s" % wt, "/repo")
+    shutil.rmtree("/tmp/seedrun_evidence_" + name, ignore_errors=True)
 res["how"] = "scratch worktree of /repo HEAD + VERIF_REPO override; /repo itself untouched"
 json.dump(res, open(dst + "/verified.json", "w"), indent=1)
 print(json.dumps(res, indent=1)[:2500])
